@@ -11,6 +11,7 @@ import (
 	"fmt"
 	"math/big"
 	"math/rand/v2"
+	"sort"
 	"strings"
 	"unicode"
 
@@ -45,6 +46,15 @@ type caseCtx struct {
 	otherS     []ksEntry // keys registered for the client named in sub (never for who)
 	permissive bool      // verifier built with a custom SubjectCheck that permits sub != iss
 	signerOf   string    // iss-client, sub-client, unregistered
+
+	// op-access-token / op-id-token-hint only: the provider-option dimension. c.S is always the trust set of the
+	// verifier under test (its configured key set, the storage keys when none is configured).
+	ksMode   string               // default, access-keyset, hint-keyset, both
+	storageS []ksEntry            // keys the storage publishes
+	accessS  []ksEntry            // key set handed to op.WithAccessTokenKeySet (nil = not configured)
+	hintS    []ksEntry            // key set handed to op.WithIDTokenHintKeySet (nil = not configured)
+	foreign  map[string][]ksEntry // the key sets that are NOT this verifier's trust set, by name
+	signedBy string               // which set the base signer was drawn from
 }
 
 type presented struct {
@@ -462,7 +472,9 @@ var operators = []operator{
 	}},
 	{"json-smuggle", func(c *caseCtx) *presented {
 		// the one case the signed-payload == parsed-payload comparison exists for
-		pr := c.smuggle(pick(c.r, smuggleWhere...), c.Evil)
+		seen, v := c.nearEvil()
+		pr := c.smuggle(pick(c.r, smuggleWhere...), seen)
+		pr.Variant += "/" + v
 		return pr
 	}},
 	{"json-smuggle-same", func(c *caseCtx) *presented {
@@ -481,7 +493,8 @@ var operators = []operator{
 		seen := c.P
 		v := "same-payload"
 		if c.r.IntN(2) == 0 {
-			seen, v = c.Evil, "evil-payload"
+			seen, v = c.nearEvil()
+			v = "evil-payload:" + v
 		}
 		kb, _ := json.Marshal(kid)
 		tok := fmt.Sprintf(`{"payload":"%s","protected":"%s","header":{"kid":%s},"signature":"%s","zz":"x.%s.y"}`, x[1], x[0], kb, x[2], keys.B64(seen))
@@ -495,4 +508,149 @@ func opNames() []string {
 		out = append(out, o.name)
 	}
 	return out
+}
+
+// safeKeys are the string claims whose value can be altered without tripping a claim check that runs before
+// the signature check (and whose value the verifier hands back, so that a difference is observable).
+func safeKeys(kind payloadKind) []string {
+	switch kind {
+	case pkIDToken:
+		return []string{"sub", "vm", "email"}
+	case pkAccessToken:
+		return []string{"sub", "vm", "jti"}
+	case pkAssertion:
+		return []string{"vm"}
+	default:
+		return []string{"state", "nonce", "vm"}
+	}
+}
+
+// editValue applies f to the string value of member key of the compact JSON object p.
+func editValue(p []byte, key string, f func(string) string) []byte {
+	s := string(p)
+	pat := `"` + key + `":"`
+	i := strings.Index(s, pat)
+	if i < 0 {
+		return p
+	}
+	i += len(pat)
+	j := strings.IndexByte(s[i:], '"')
+	if j < 0 {
+		return p
+	}
+	return []byte(s[:i] + f(s[i:i+j]) + s[i+j:])
+}
+
+func toggleCase(r *rand.Rand, v string) string {
+	b := []byte(v)
+	changed := false
+	for i := range b {
+		if (b[i]|0x20 >= 'a' && b[i]|0x20 <= 'z') && (r.IntN(2) == 0 || !changed) {
+			b[i] ^= 0x20
+			changed = true
+		}
+	}
+	return string(b)
+}
+
+// mapNames rewrites every member name of the top-level compact object.
+func mapNames(p []byte, f func(string) string) []byte {
+	var m map[string]json.RawMessage
+	if json.Unmarshal(p, &m) != nil {
+		return p
+	}
+	ks := make([]string, 0, len(m))
+	for k := range m {
+		ks = append(ks, k)
+	}
+	sort.Strings(ks)
+	var sb strings.Builder
+	sb.WriteByte('{')
+	for i, k := range ks {
+		if i > 0 {
+			sb.WriteByte(',')
+		}
+		kb, _ := json.Marshal(f(k))
+		sb.Write(kb)
+		sb.WriteByte(':')
+		sb.Write(m[k])
+	}
+	sb.WriteByte('}')
+	return []byte(sb.String())
+}
+
+var nearKinds = []string{"far", "far", "case-value-upper", "case-value-mixed", "case-names-upper", "case-names-capitalised", "case-names-and-values",
+	"case-whole-payload-upper", "one-byte-changed", "one-byte-appended", "one-byte-removed", "same-length-different-bytes", "whitespace-only"}
+
+// nearEvil returns a never-signed payload for the smuggling operators: the far forged one, or one at a small edit
+// distance from the signed payload (letter case only, one byte changed / appended / removed, same length, whitespace only).
+func (c *caseCtx) nearEvil() ([]byte, string) {
+	kind := pick(c.r, nearKinds...)
+	key := pick(c.r, safeKeys(c.kind)...)
+	var out []byte
+	switch kind {
+	case "far":
+		return c.Evil, "far"
+	case "case-value-upper":
+		out = editValue(c.P, key, strings.ToUpper)
+	case "case-value-mixed":
+		out = editValue(c.P, key, func(v string) string { return toggleCase(c.r, v) })
+	case "case-names-upper":
+		out = mapNames(c.P, strings.ToUpper)
+	case "case-names-capitalised":
+		out = mapNames(c.P, func(k string) string { return strings.ToUpper(k[:1]) + k[1:] })
+	case "case-names-and-values":
+		out = mapNames(c.P, func(k string) string { return toggleCase(c.r, k) })
+		for _, k := range safeKeys(c.kind) {
+			out = editValueFold(out, k, strings.ToUpper)
+		}
+	case "case-whole-payload-upper":
+		out = []byte(strings.ToUpper(string(c.P)))
+	case "one-byte-changed":
+		out = editValue(c.P, key, func(v string) string { return v[:len(v)-1] + string(v[len(v)-1]^0x01) })
+	case "one-byte-appended":
+		out = editValue(c.P, key, func(v string) string { return v + "x" })
+	case "one-byte-removed":
+		out = editValue(c.P, key, func(v string) string { return v[:len(v)-1] })
+	case "same-length-different-bytes":
+		out = editValue(c.P, key, func(v string) string {
+			b := []byte(v)
+			for i, j := 0, len(b)-1; i < j; i, j = i+1, j-1 {
+				b[i], b[j] = b[j], b[i]
+			}
+			if string(b) == v {
+				b[0] ^= 0x01
+			}
+			return string(b)
+		})
+	case "whitespace-only":
+		switch c.r.IntN(3) {
+		case 0:
+			out = []byte(strings.Replace(string(c.P), ":", ": ", 1))
+		case 1:
+			out = []byte(strings.Replace(string(c.P), ",", ", ", 1))
+		default:
+			out = []byte(strings.Replace(string(c.P), ":", ":\t", 1))
+		}
+	}
+	if string(out) == string(c.P) {
+		return c.Evil, "far"
+	}
+	return out, kind + "(" + key + ")"
+}
+
+// editValueFold is editValue with a case-insensitive search for the member name.
+func editValueFold(p []byte, key string, f func(string) string) []byte {
+	s := string(p)
+	pat := `"` + key + `":"`
+	i := strings.Index(strings.ToLower(s), pat)
+	if i < 0 {
+		return p
+	}
+	i += len(pat)
+	j := strings.IndexByte(s[i:], '"')
+	if j < 0 {
+		return p
+	}
+	return []byte(s[:i] + f(s[i:i+j]) + s[i+j:])
 }
